@@ -14,3 +14,5 @@ def run(ctx):
     arithmetic(ctx, which=None if not ctx.quick else ['add', 'divide', 'abs'])
     from ..scen_misc import functional, fold
     functional(ctx); fold(ctx)
+    from ..scen_kernels2 import kernels2, kernels_fn
+    kernels2(ctx); kernels_fn(ctx)       # table-driven kernels: logic, type tests, casts, list / object / string helpers, functions with a function argument
